@@ -535,6 +535,14 @@ def x9_check():
         "two self-joins + table t_1 first": (lambda t, t1: (lambda s, s2: t1 >> pdt.inner_join(t, t.b == t1.b) >> pdt.inner_join(s, t.b == s.b) >> pdt.inner_join(s2, t.b == s2.b))(t >> pdt.alias(), t >> pdt.alias()), False),
         "hidden column a renamed inside the subquery next to a column a_1": (lambda t, t1: t >> pdt.mutate(a_1=t.a * 100) >> pdt.mutate(a=t.a + 1) >> pdt.arrange(t.k) >> pdt.slice_head(4) >> pdt.alias(keep_col_refs=True) >> pdt.filter(t.a > 0), False),
         "grouping column neither selected nor referenced above the subquery": (lambda t, t1: t >> pdt.group_by(t.a) >> pdt.mutate(r=pdt.row_number(arrange=t.k)) >> pdt.alias() >> pdt.filter(C.r == 1) >> pdt.summarize(n=pdt.count()) >> pdt.select(C.n), False),
+        "a reference to a window column taken before alias(keep_col_refs=True) is a plain column after it": (lambda t, t1: (lambda t2: t2 >> pdt.alias(keep_col_refs=True) >> pdt.filter(t2.k > 0) >> pdt.filter(t2.w > 1) >> pdt.select(t2.k, t2.w))(t >> pdt.mutate(w=t.k.rank())), False),
+        "column names that differ only in case inside a subquery": (lambda t, t1: t >> pdt.mutate(A=t.k * 10) >> pdt.arrange(t.k) >> pdt.slice_head(3) >> pdt.alias() >> pdt.filter(C.A > 25) >> pdt.select(C.A, C.a), False),
+        "hidden column overwritten again after the subquery": (lambda t, t1: t >> pdt.mutate(c=t.k * 2) >> pdt.arrange(t.k) >> pdt.slice_head(3) >> pdt.alias(keep_col_refs=True) >> pdt.filter(t.k > 0) >> pdt.mutate(c=t.c + C.c) >> pdt.select(t.k, C.c), False),
+        "rename swap after a sliced alias(), then filter through the table-bound reference": (lambda t, t1: (lambda s: s >> pdt.rename({"k": "g", "g": "k"}) >> pdt.filter(s.k >= 5) >> pdt.select(s.k, s.g))(t >> pdt.arrange(t.k) >> pdt.slice_head(4) >> pdt.alias()), False),
+        "rename + reuse of the old name after a sliced alias()": (lambda t, t1: (lambda s: s >> pdt.rename({"k": "kk"}) >> pdt.mutate(k=s.g * 100) >> pdt.filter(s.k >= 5) >> pdt.select(s.k, C.k))(t >> pdt.arrange(t.k) >> pdt.slice_head(4) >> pdt.alias()), False),
+        "constant column of an aliased right operand of a left join, then group_by on it": (lambda t, t1: (lambda r: t >> pdt.left_join(r, t.k == r.k + 4) >> pdt.group_by(r.cst) >> pdt.summarize(n=pdt.count()))(t1 >> pdt.mutate(cst=1) >> pdt.alias("rr")), False),
+        "constant column of an aliased right operand of a left join, then arrange on it": (lambda t, t1: (lambda r: t >> pdt.left_join(r, t.k == r.k + 4) >> pdt.arrange(r.cst.nulls_first(), t.k) >> pdt.select(t.k, r.cst))(t1 >> pdt.mutate(cst=1) >> pdt.alias("rr")), True),
+        "self-join with a hidden column of the same name on both sides, read through either side": (lambda t, t1: (lambda m0: (t >> pdt.select(t.k, t.g)) >> pdt.inner_join(m0 >> pdt.select(m0.k, m0.g), t.g + 1 == m0.g) >> pdt.mutate(lb=t.b, mb=m0.b) >> pdt.select(t.k, C.lb, C.mb))(t >> pdt.alias("m")), False),
         "arrange before alias() is kept by the outer query": (lambda t, t1: (lambda s: s >> pdt.filter(s.r <= 5) >> pdt.select(s.k))(t >> pdt.mutate(r=pdt.row_number(arrange=t.k)) >> pdt.arrange(t.k.descending()) >> pdt.alias()), True),
         "arrange before alias() breaks the ties of an arrange after it": (lambda t, t1: (lambda s: s >> pdt.filter(s.r <= 3) >> pdt.arrange(s.g) >> pdt.select(s.k))(t >> pdt.mutate(r=pdt.row_number(arrange=t.c.nulls_last(), partition_by=t.g)) >> pdt.arrange(t.k) >> pdt.alias()), True),
         "window function without arrange= after the alias sees the order fixed before it": (lambda t, t1: (lambda s: s >> pdt.filter(s.r <= 5) >> pdt.mutate(sh=s.k.shift(1)) >> pdt.select(s.k, C.sh))(t >> pdt.mutate(r=pdt.row_number(arrange=t.k)) >> pdt.arrange(t.k.descending()) >> pdt.alias()), True),
